@@ -17,7 +17,15 @@ tie:   (A) compute_args_id: the model's text (Eval vm_compute of `encode gen_enc
        (E) end to end (client -> state backend -> LazyCall on the worker side -> result/exception back) for the three
            serializers x both stores x thresholds x disable_cache_args, warm and cold LRU; then app.purge() and the
            same content again, read by a second app instance on the same database (SQLite) / with a cold LRU (Mem);
-       (F) JSON tree layer: json.loads(serialize(v)) and deserialize(serialize(v)) vs preprocess / reconstruct.
+       (F) JSON tree layer: json.loads(serialize(v)) and deserialize(serialize(v)) vs preprocess / reconstruct;
+       (G) call ids of long values (300 .. 70000 serialized chars; str / list / dict / tuple / bytes) that differ in ONE place
+           (first / middle / last / around powers of two / appended / dropped) under every configuration that keeps a
+           big value inline (store disabled, disable_cache_args, above max_size, below min_size) and the default;
+           oracle: call ids equal <=> serialized arguments equal; the same pairs directly on compute_args_id (part A);
+       (H) values that are == (and hash alike) but not the same value (0.0/-0.0, 1/1.0/True, IntEnum/int, StrEnum/str,
+           2**53/float) inside every externalisable shape (scalar, list, tuple, frozenset, set, dict key/value, object,
+           bytes/bytearray), serialized one after the other through ONE store instance, both orders: each comes back
+           as itself, references equal <=> content equal, call ids equal <=> serialized arguments equal.
 """
 from __future__ import annotations
 
@@ -49,7 +57,7 @@ MANIFEST = {
             "as no purge follows, and the theorem is instantiated with the generated fact that _maybe_store writes the backend row "
             "unconditionally (a process-local 'already stored' shortcut is refuted in Coq and breaks the proof); "
             "references are a function of content; inline <=> size tests; "
-            "LRU bounded; JSON envelope round trip for all nested values of the domain, with refutation witnesses for every guard. "
+            "LRU bounded; the whole key/value text reaches the args-id hash (generated fact gen_args_text_whole; a slice breaks the proof); JSON envelope round trip for all nested values of the domain, with refutation witnesses for every guard. "
             "Tie: fail-closed AST translator of seven source files + differential runs of model (vm_compute) and real code.",
     "note": "Oracles (Section variables / hypotheses): SHA-256 (collision-free on the contents that occur; never equals 'no_args'), "
             "the serializers' text layer (json/pickle/jsonpickle: deser(ser v) = v, output never starts with the reserved prefix), UTF-8. "
@@ -155,6 +163,40 @@ def gen_pairs(ctx: Ctx):
             d2 = dict(items)
             d2[rstr(rng, 0, 2)] = rstr(rng, 0, 2)
         pairs.append((kind, dict(d), d2))
+    for L in (1100, 4200):            # long values, byte-exact against the model text as well
+        base = "".join(rng.choice(ALPHA) for _ in range(L))
+        pairs.append(("value", {"k": base}, {"k": base[:-1] + ("a" if base[-1] != "a" else "b")}))
+    return pairs
+
+
+def long_variants(base: str, rng, n_pos=6):
+    """texts that differ from `base` in ONE place: first / middle / last character, random positions, one character
+    appended, last character dropped (-> (where, text))"""
+    L = len(base)
+
+    def flip(i):
+        return base[:i] + ("#" if base[i] != "#" else "%") + base[i + 1:]
+    out = [("first", flip(0)), ("middle", flip(L // 2)), ("last", flip(L - 1)), ("appended", base + "z"), ("dropped", base[:-1])]
+    out += [(f"at {i}/{L}", flip(i)) for i in sorted(rng.sample(range(L), min(n_pos, L)))]
+    # around powers of two (a hashed / compared prefix is usually cut at such a bound)
+    out += [(f"at {i}/{L}", flip(i)) for b in (256, 1024, 4096, 16384, 65536) for i in (b - 1, b) if i < L]
+    return out
+
+
+def long_lengths(ctx: Ctx):
+    return [300, 1500, 4100, 9000, 70000] + ([300000] if ctx.thorough else [])
+
+
+def long_args_pairs(ctx: Ctx):
+    rng = ctx.rng
+    pairs = []
+    for L in long_lengths(ctx):
+        base = "".join(rng.choice("abcdefghij \"\\\n;=é") for _ in range(L))
+        for where, text in long_variants(base, rng):
+            pairs.append((f"long:{L}:{where}", {"k": base}, {"k": text}))
+            pairs.append((f"long:{L}:{where}", {"a": "1", "k": base, "z": ""}, {"a": "1", "k": text, "z": ""}))
+        pairs.append((f"long-key:{L}", {base: "v"}, {base[:-1] + "!": "v"}))
+        pairs.append((f"long:{L}:equal", {"k": base, "b": "2"}, {"b": "2", "k": base}))
     return pairs
 
 
@@ -190,12 +232,30 @@ def run_args_id(ctx: Ctx):
         ia, ib = compute_args_id(dict(a)), compute_args_id(dict(b))
         kinds[kind] = kinds.get(kind, 0) + 1
         if (ia == ib) != (a == b):
-            if a == b:
+            if max([0] + [len(x) for d in (a, b) for kv in d.items() for x in kv]) > 200:
+                ctx.violation("args-id:collision" if a != b else "args-id:order",
+                              f"argument maps with a long ({max(len(v) for v in a.values())} chars) value that {'differ in one character' if a != b else 'are equal'} get the ids {ia[:16]} / {ib[:16]}",
+                              {"kind": "args_id_pair", "d1": list(a.items()), "d2": list(b.items()), "observed": [ia, ib],
+                               "expected": "different ids" if a != b else "equal ids"})
+            elif a == b:
                 ctx.violation("args-id:order", f"the same argument map written in two orders gets two ids: {list(a.items())} / {list(b.items())}",
                               {"kind": "args_id_pair", "d1": list(a.items()), "d2": list(b.items()), "observed": [ia, ib], "expected": "equal ids"})
             else:
                 ctx.violation("args-id:collision", f"two different argument maps get the same id {ia}: {list(a.items())} / {list(b.items())}",
                               {"kind": "args_id_pair", "d1": list(a.items()), "d2": list(b.items()), "observed": [ia, ib], "expected": "different ids"})
+    # long values / keys that differ in one place only (oracle on the real ids; two of them also byte-exact vs the model above)
+    lp = long_args_pairs(ctx)
+    for kind, a, b in lp:
+        ia, ib = compute_args_id(dict(a)), compute_args_id(dict(b))
+        cls = kind.split(":")[0] + ":" + kind.split(":")[1]
+        kinds[cls] = kinds.get(cls, 0) + 1
+        if (ia == ib) != (a == b):
+            short = lambda d: [[k[:30] + ("..." if len(k) > 30 else ""), f"<{len(v)} chars>" if len(v) > 30 else v] for k, v in d.items()]  # noqa: E731
+            ctx.violation("args-id:collision" if a != b else "args-id:order",
+                          f"two argument maps that differ in one place ({kind}) get the ids {ia[:16]} / {ib[:16]}: {short(a)}",
+                          {"kind": "args_id_pair", "d1": list(a.items()), "d2": list(b.items()), "observed": [ia, ib],
+                           "expected": "different ids" if a != b else "equal ids"})
+    ctx.count(len(lp), len(lp))
     ctx.sample({"args": list(pairs[1][1].items()), "other": list(pairs[1][2].items()),
                 "ids": [compute_args_id(pairs[1][1])[:16], compute_args_id(pairs[1][2])[:16]]})
     # a truncated digest: model-guided birthday search on the real function
@@ -1030,6 +1090,181 @@ def run_json_tree(ctx: Ctx, reserved: dict):
     ]
 
 
+# =============================================================================== G. call identity of long inline values
+INLINE_CONFS = [            # (label, config values, disable_cache_args): every way a big value stays inline, + the default
+    ("store-disabled", {"disable_client_data_store": True}, ()),
+    ("disable_cache_args=x", {}, ("x",)),
+    ("disable_cache_args=*", {}, ("*",)),
+    ("above-max_size", {"min_size_to_cache": 0, "max_size_to_cache": 200}, ()),
+    ("below-min_size", {"min_size_to_cache": 10 ** 9}, ()),
+    ("externalised(default)", {}, ()),
+]
+
+
+def long_value_families(ser: str, L: int, rng):
+    """(shape, base value, [(where, variant)]): values whose serialized text is long and differs in one place"""
+    base = "".join(rng.choice("abcdefghij xyz") for _ in range(L))
+    fams = []
+    vs = long_variants(base, rng, n_pos=3)
+    fams.append(("str", base, vs))
+    fams.append(("list-of-str", ["head", base, "tail"], [(w, ["head", t, "tail"]) for w, t in vs]))
+    fams.append(("dict", {"doc": base, "n": 1}, [(w, {"doc": t, "n": 1}) for w, t in vs]))
+    n = max(3, L // 4)
+    ints = [rng.randrange(100) for _ in range(n)]
+
+    def at(i, x):
+        return ints[:i] + [x] + ints[i + 1:]
+    fams.append(("list-of-int", ints, [("first", at(0, 100)), ("middle", at(n // 2, 100)), ("last", at(n - 1, 100)),
+                                       ("appended", ints + [0]), ("dropped", ints[:-1])]))
+    if ser != "JsonSerializer":
+        fams.append(("tuple", tuple(ints), [("first", tuple(at(0, 100))), ("last", tuple(at(n - 1, 100))), ("appended", tuple(ints + [0]))]))
+        bb = base.encode()
+        fams.append(("bytes", bb, [("first", b"#" + bb[1:]), ("middle", bb[:L // 2] + b"#" + bb[L // 2 + 1:]), ("last", bb[:-1] + b"#")]))
+    return fams
+
+
+def run_long_inline(ctx: Ctx, scratch: str):
+    """two calls get the same identity exactly when task and SERIALIZED arguments are equal - also when the serialized
+    argument is long and kept inline"""
+    from pynenc.arguments import Arguments
+    from pynenc.call import Call
+    rng = ctx.rng
+    n = n_inline = 0
+    for ser in ("JsonSerializer", "PickleSerializer", "JsonPickleSerializer"):
+        for label, cfg, dca in INLINE_CONFS:
+            kind = "sqlite" if label in ("externalised(default)", "above-max_size") else "mem"
+            app = world.make_app(kind, scratch, serializer_cls=ser, **cfg)
+            task = app.task(T.two, disable_cache_args=dca) if dca else app.task(T.two)
+            for L in [x for x in long_lengths(ctx) if x <= 70000]:
+                for shape, base, variants in long_value_families(ser, L, rng):
+                    seen: dict = {}
+                    for where, v in [("base", base), ("base again", base)] + variants:
+                        call = Call(task, Arguments.from_call(T.two, v, y=7))
+                        sargs = dict(call.serialized_arguments)
+                        cid = call.call_id
+                        n += 1
+                        n_inline += not app.client_data_store.is_reference(sargs["x"])
+                        for (w0, v0, s0, c0) in seen.values():
+                            if (c0 == cid) != (s0 == sargs):
+                                ctx.violation(f"call-id:long-value:{'collision' if c0 == cid else 'split'}",
+                                              f"{ser}/{label}: {shape} of serialized length {len(sargs['x'])} ({w0}) and its variant ({where}): "
+                                              f"serialized arguments {'differ' if s0 != sargs else 'are equal'}, call ids {c0.args_id[:16]} / {cid.args_id[:16]}",
+                                              {"kind": "long_call_pair", "serializer": ser, "backend": kind, "config": cfg, "disable_cache_args": list(dca),
+                                               "a_pickle_b64": b64(v0), "b_pickle_b64": b64(v), "where": where,
+                                               "observed": [c0.args_id, cid.args_id], "expected": "equal ids <=> equal serialized arguments"})
+                                break
+                        seen.setdefault(json.dumps(sargs, sort_keys=True), (where, v, sargs, cid))
+    ctx.count(n, n)
+    ctx.notes["long_inline_call_ids"] = {"calls": n, "with_inline_x": n_inline, "configurations": [c[0] for c in INLINE_CONFS],
+                                         "lengths": [x for x in long_lengths(ctx) if x <= 70000]}
+
+
+# =============================================================================== H. equal (==) but different values
+def twin_leaf_groups():
+    """groups of leaves that compare == (and hash alike) without being the same value"""
+    return [[0.0, -0.0], [1, 1.0, True], [0, False, -0.0], [T.Level.HIGH, 9, 9.0], [T.Mode.FAST, "fast"], [2 ** 53, float(2 ** 53)]]
+
+
+def twin_shapes(ser: str, n: int):
+    """(shape name, builder leaf -> value) for every externalisable type of the serializer's domain"""
+    pad = "p" * (2 * n)
+    shapes = [
+        ("scalar", lambda x: x),
+        ("list", lambda x: [x] * n),
+        ("nested-list", lambda x: [[x, "k"], [pad]]),
+        ("dict-value", lambda x: {"k": [x] * n, "pad": pad}),
+        ("Money", lambda x: T.Money(x, pad)),
+    ]
+    if ser != "JsonSerializer":
+        shapes += [
+            ("tuple", lambda x: (x,) * n),
+            ("nested-tuple", lambda x: ((x, "k"), (pad,))),
+            ("frozenset", lambda x: frozenset({x, pad})),
+            ("set", lambda x: {x, pad}),
+            ("dict-key", lambda x: {x: pad}),
+            ("tuple-of-frozenset", lambda x: (frozenset({x}), pad)),
+        ]
+    return shapes
+
+
+def run_twins(ctx: Ctx, scratch: str):
+    """values that are == but not the same (0.0 / -0.0, 1 / 1.0 / True, IntEnum / int, StrEnum / str, ...), serialized one after the
+    other through ONE store instance: each must come back as itself, references equal <=> serialized content equal,
+    call ids equal <=> serialized arguments equal"""
+    from pynenc.arguments import Arguments
+    from pynenc.call import Call
+    n_vals = n_ext = n_skipped = 0
+    combos = [(ser, kind, mn, n) for ser in ("JsonSerializer", "PickleSerializer", "JsonPickleSerializer")
+              for kind in ("mem", "sqlite") for mn, n in ((0, 2), (1024, 600))]
+    if not ctx.thorough:
+        combos = [c for c in combos if c[1] == "mem" or c[2] == 1024]
+    for ser, kind, mn, n in combos:
+        for order in (1, -1):
+            app = world.make_app(kind, scratch, serializer_cls=ser, min_size_to_cache=mn)
+            cds, szr = app.client_data_store, app.serializer
+            task = app.task(T.two)
+            if ser == "PickleSerializer":
+                extra = [("bytes", [b"ab" * n, bytearray(b"ab" * n)][::order])]
+            else:
+                extra = []
+            groups = [(shape, [build(x) for x in g[::order]]) for shape, build in twin_shapes(ser, n) for g in twin_leaf_groups()] + extra
+            done = []        # (shape, value, serializer text, store output)
+            for shape, vals in groups:
+                for v in vals:
+                    try:
+                        text = szr.serialize(v)
+                        ok = canon(szr.deserialize(text)) == canon(v)
+                    except Exception:  # noqa: BLE001
+                        ok = False
+                    if not ok:          # outside the serializer's own domain (e.g. IntEnum inside to_json data): not this part's business
+                        n_skipped += 1
+                        continue
+                    out = cds.serialize(v)
+                    n_vals += 1
+                    n_ext += cds.is_reference(out)
+                    done.append((shape, v, text, out))
+            by_out: dict = {}
+            for i, (shape, v, text, out) in enumerate(done):
+                history = [d[1] for d in done[:i + 1] if d[0] == shape]
+
+                def rp(why, observed):
+                    return {"kind": "twins", "serializer": ser, "backend": kind, "min_size": mn, "values_pickle_b64": [b64(x) for x in history],
+                            "why": why, "observed": observed, "expected": repr(v)[:200]}
+                first = by_out.setdefault(out, (shape, v, text))
+                if cds.is_reference(out) and first[2] != text:
+                    ctx.violation(f"cds-twin:{ser}:reference-shared",
+                                  f"{ser}/{kind} min_size={mn}: {shape} values {repr(first[1])[:80]} and {repr(v)[:80]} are == but serialize differently, "
+                                  f"yet serialize() gave both the reference {out[:40]}",
+                                  rp("different content, same reference", out))
+                    continue
+                try:
+                    cds._deserialized_cache.clear()
+                    back = cds.resolve(out)
+                except Exception as ex:  # noqa: BLE001
+                    back = f"<{type(ex).__name__}: {ex}>"
+                if canon(back) != canon(v):
+                    ctx.violation(f"cds-twin:{ser}:wrong-value", f"{ser}/{kind} min_size={mn}: {shape} {repr(v)[:100]} comes back as {repr(back)[:100]}",
+                                  rp("wrong value", repr(back)[:200]))
+            # call identity of the twins of one shape
+            ids: dict = {}
+            for shape, v, text, out in done:
+                call = Call(task, Arguments.from_call(T.two, v))
+                sargs = json.dumps(dict(call.serialized_arguments), sort_keys=True)
+                for (s0, v0, c0) in ids.get(shape, []):
+                    if (c0 == call.call_id) != (s0 == sargs):
+                        ctx.violation(f"call-id:twin:{ser}", f"{ser}/{kind} min_size={mn}: two({repr(v0)[:80]}) and two({repr(v)[:80]}): serialized arguments "
+                                                             f"{'equal' if s0 == sargs else 'differ'}, call ids {'equal' if c0 == call.call_id else 'differ'}",
+                                      {"kind": "twins", "serializer": ser, "backend": kind, "min_size": mn, "values_pickle_b64": [b64(v0), b64(v)],
+                                       "why": "call ids vs serialized arguments", "observed": [str(c0), str(call.call_id)], "expected": "equal ids <=> equal serialized arguments"})
+                        break
+                ids.setdefault(shape, []).append((sargs, v, call.call_id))
+    ctx.count(n_vals, n_vals)
+    ctx.notes["equal_but_different_values"] = {"values": n_vals, "externalised": n_ext, "outside_serializer_domain_skipped": n_skipped,
+                                               "leaf_groups": [[repr(x) for x in g] for g in twin_leaf_groups()],
+                                               "shapes": [sh for sh, _ in twin_shapes("PickleSerializer", 1)] + ["bytes/bytearray"],
+                                               "configurations": len(combos) * 2}
+
+
 # =============================================================================== main / replay
 def main(ctx: Ctx) -> int:
     world.quiet()
@@ -1045,6 +1280,8 @@ def main(ctx: Ctx) -> int:
         run_cds(ctx, scratch)
         run_json_tree(ctx, reserved)
         run_e2e(ctx, scratch)
+        run_long_inline(ctx, scratch)
+        run_twins(ctx, scratch)
     finally:
         world.rm_scratch(scratch)
     if not info.get("degraded"):
@@ -1075,7 +1312,9 @@ def main(ctx: Ctx) -> int:
              "D: witnesses of the Coq refutation theorems + seeded traces of serialize/resolve/resolve-on-another-instance/mutate/purge/"
              "purge-by-another-instance (equal content repeated after purges) over a grid of disable x min x max x LRU size on both stores; "
              "E: recursive values per serializer x store x threshold x disable options through state backend and LazyCall, then app.purge() and "
-             "the same content again read by a second app instance; F: JSON-domain values vs preprocess/reconstruct. "
+             "the same content again read by a second app instance; F: JSON-domain values vs preprocess/reconstruct; "
+             "G: long values differing in one place (start/middle/end/powers of two/appended/dropped) x shapes x every keep-inline configuration; "
+             "H: groups of ==-equal but different leaves x every externalisable container shape x serializer x store x threshold, both orders. "
              "distinct_nontrivial = distinct dicts + distinct calls/error spellings + key cases + distinct (config, trace) + values")
 
 
@@ -1086,8 +1325,8 @@ def replay(ctx: Ctx, path: str) -> int:
     if kind == "args_id_pair":
         from pynenc.call import compute_args_id
         d1, d2 = dict(map(tuple, rp["d1"])), dict(map(tuple, rp["d2"]))
-        print("d1", d1, "->", compute_args_id(d1))
-        print("d2", d2, "->", compute_args_id(d2))
+        print("d1", str(d1)[:300], "->", compute_args_id(d1))
+        print("d2", str(d2)[:300], "->", compute_args_id(d2))
         print("maps equal:", d1 == d2, "expected:", rp["expected"])
     elif kind in ("spelling", "spelling_pair"):
         from pynenc.arguments import Arguments
@@ -1119,6 +1358,33 @@ def replay(ctx: Ctx, path: str) -> int:
                 print(o, "->", (from_codes(ob[1:]) if ob[0] == 0 else ("object", ob[1], from_codes(ob[2:])) if ob[0] == 1
                                 else "KeyError" if ob[0] == 2 else done.get(o[0], "done")))
             print("expected", rp.get("expected"), "observed", rp.get("observed"), rp.get("why", ""))
+        finally:
+            world.rm_scratch(scratch)
+    elif kind in ("twins", "long_call_pair"):
+        import base64
+        import pickle
+        from pynenc.arguments import Arguments
+        from pynenc.call import Call
+        scratch = world.scratch_dir()
+        try:
+            if kind == "twins":
+                app = world.make_app(rp["backend"], scratch, serializer_cls=rp["serializer"], min_size_to_cache=rp["min_size"])
+                vals, dca = [pickle.loads(base64.b64decode(x)) for x in rp["values_pickle_b64"]], ()      # written by this check
+            else:
+                app = world.make_app(rp["backend"], scratch, serializer_cls=rp["serializer"], **rp["config"])
+                vals, dca = [pickle.loads(base64.b64decode(rp[k])) for k in ("a_pickle_b64", "b_pickle_b64")], tuple(rp["disable_cache_args"])
+            task = app.task(T.two, disable_cache_args=dca) if dca else app.task(T.two)
+            cds = app.client_data_store
+            for v in vals:
+                call = Call(task, Arguments.from_call(T.two, v))
+                out = call.serialized_arguments["x"]
+                cds._deserialized_cache.clear()
+                try:
+                    back = repr(cds.resolve(out))[:120]
+                except Exception as ex:  # noqa: BLE001
+                    back = f"<{type(ex).__name__}: {ex}>"
+                print("value", repr(v)[:80], f"({len(out)} chars serialized)", out[:60], "-> back", back, "| args_id", call.call_id.args_id[:16])
+            print("recorded:", rp.get("why", rp.get("where")), str(rp["observed"])[:200], "expected", rp["expected"])
         finally:
             world.rm_scratch(scratch)
     elif kind in ("roundtrip", "json_value"):
